@@ -2,6 +2,7 @@ package acmelib
 
 import (
 	"io"
+	"math"
 	"os"
 	"path/filepath"
 	"slices"
@@ -147,7 +148,7 @@ func (e *exporter) exportAttributeAssignment(attAss *AttributeAssignment, dbcAtt
 		if err != nil {
 			panic(err)
 		}
-		if intAtt.isHexFormat {
+		if exportsAsHex(intAtt) {
 			dbcAttVal.Type = dbc.AttributeValueHex
 			dbcAttVal.ValueHex = uint32(attAss.value.(int))
 		} else {
@@ -202,7 +203,7 @@ func (e *exporter) exportAttribute(att Attribute, dbcAtt *dbc.Attribute) {
 			panic(err)
 		}
 
-		if intAtt.isHexFormat {
+		if exportsAsHex(intAtt) {
 			dbcAtt.Type = dbc.AttributeHex
 			dbcAtt.MinHex = uint32(intAtt.min)
 			dbcAtt.MaxHex = uint32(intAtt.max)
@@ -593,4 +594,11 @@ func (e *exporter) exportMultiplexerSignal(muxSig *MultiplexerSignal, dbcMsgID u
 
 		e.dbcFile.ExtendedMuxes = append(e.dbcFile.ExtendedMuxes, dbcExtMux)
 	}
+}
+
+// exportsAsHex reports whether an integer attribute is written with the HEX type:
+// the hex format is unsigned 32 bit, an attribute whose range does not fit is
+// written as a plain integer (the values would otherwise wrap around).
+func exportsAsHex(intAtt *IntegerAttribute) bool {
+	return intAtt.isHexFormat && intAtt.min >= 0 && intAtt.max <= math.MaxUint32
 }
